@@ -103,6 +103,8 @@ var c17Names = []string{
 	`\000\255z.example.`,
 	"0-9.example.",
 	"x.y.w.example.",
+	"\xc3\x80x.example.", // raw UTF-8 (À): Unicode-aware case folding would change its octets
+	"\xe9x.example.",     // a raw octet that is not valid UTF-8
 	strings.Repeat("k", 63) + ".example.",
 	strings.Repeat("a", 63) + "." + strings.Repeat("b", 63) + "." + strings.Repeat("c", 63) + "." + strings.Repeat("d", 61) + ".",
 }
@@ -167,7 +169,7 @@ func c17KeyTagSpace(c *fw.Ctx) {
 		lenSet = append(lenSet, 255, 256, 257, 259, 260, 511, 512, 513, 516, 1023, 1024, 3000, 4091, 4092, 4093)
 		lenDesc = "{0..132, 255, 256, 257, 259, 260, 511, 512, 513, 516, 1023, 1024, 3000, 4091, 4092, 4093}"
 	}
-	c.Space("keytag", "flags {0,1,256,257,0xffff} × protocol {0,3,255} × algorithm {3,5,8,10,13,14,15,253} × key octets of length "+lenDesc+" in patterns {00…, ff…, counting}, plus per header a 4-octet key that makes the 32-bit sum exactly 0x1ffff (the fold produces a second carry), plus the 13 fixed keys; non-trivial: odd key length or sum > 0xffff", true,
+	c.Space("keytag", "flags {0,1,256,257,0xffff} × protocol {0,3,255} × algorithm {3,5,8,10,13,14,15,253} × key octets of length "+lenDesc+" in patterns {00…, ff…, counting}, plus per header a 4-octet key that makes the 32-bit sum exactly 0x1ffff (the fold produces a second carry), plus the fixed keys of /verif/keys; non-trivial: odd key length or sum > 0xffff", true,
 		func(emit func(func(*fw.R))) {
 			for _, fl := range flagsSet {
 				for _, pr := range protoSet {
@@ -231,7 +233,7 @@ func c17DSSpace(c *fw.Ctx) {
 	}
 	keyset = append(keyset, ks{257, 8, 4092}, ks{257, 8, 4093})
 	nfixed := len(c10KeyNames)
-	c.Space("ds", "12 owner names × spellings {lower, upper, alternating, one upper-case letter as \\DDD} × (42 synthetic DNSKEYs: flags {256,257} × algorithm {8,13,15,253} × counting key octets of length {0,1,64,65,256}, two of 4092 and 4093 octets, + 13 fixed keys) × digest types {1,2,4} and {0,3,5,255}; non-trivial: the owner spelling contains an upper-case letter", true,
+	c.Space("ds", "14 owner names × spellings {lower, upper, alternating, one upper-case letter as \\DDD} × (42 synthetic DNSKEYs: flags {256,257} × algorithm {8,13,15,253} × counting key octets of length {0,1,64,65,256}, two of 4092 and 4093 octets, + the fixed keys) × digest types {1,2,4} and {0,3,5,255}; non-trivial: the owner spelling contains an upper-case letter", true,
 		func(emit func(func(*fw.R))) {
 			for _, lower := range c17Names {
 				for _, form := range c17Forms(lower) {
@@ -324,7 +326,7 @@ func c17HashSpace(c *fw.Ctx) {
 	if c.Thorough {
 		iters = append(iters, 11, 12, 255, 256, 1000, 2500, 65534)
 	}
-	c.Space("nsec3hash", fmt.Sprintf("12 names (root, apex, wildcard, underscore, escaped dot, octets 0 and 255, 63-octet label, 255-octet name, …) × salts of {0,1,8,255} octets × iterations %v × spellings {lower, upper, alternating, one upper-case letter as \\DDD}; non-trivial: iterations > 0 or salt non-empty", iters), true,
+	c.Space("nsec3hash", fmt.Sprintf("14 names (root, apex, wildcard, underscore, escaped dot, octets 0 and 255, raw UTF-8 À, a raw non-UTF-8 octet, 63-octet label, 255-octet name, …) × salts of {0,1,8,255} octets × iterations %v × spellings {lower, upper, alternating, one upper-case letter as \\DDD}; non-trivial: iterations > 0 or salt non-empty", iters), true,
 		func(emit func(func(*fw.R))) {
 			for _, lower := range c17Names {
 				for _, sl := range c17Salts {
@@ -439,6 +441,9 @@ func c17CoverSpace(c *fw.Ctx) {
 		{"sub.example.", []string{"a.sub.example.", "sub.example.", "example.", "a.example.", "xsub.example.", "a.sub.example2.",
 			"a\\.sub.example.", "a.x\\.sub.example.", "a\\\\.sub.example."}},
 		{".", []string{"com.", "a.example.", "."}},
+		// raw octets ≥ 0x80 (Unicode-aware case mapping would merge or rewrite them)
+		{"\xe9.example.", []string{"a.\xe9.example.", "a.\xea.example.", "\xe9.example.", "a.\xc3\xa9.example."}},
+		{"\xc3\xa0.example.", []string{"a.\xc3\xa0.example.", "a.\xc3\x80.example.", "a.\xe0.example."}},
 	}
 	type si struct {
 		salt int
@@ -449,7 +454,7 @@ func c17CoverSpace(c *fw.Ctx) {
 		params = append(params, si{1, 2}, si{0, 100}, si{16, 0}, si{8, 2500})
 	}
 	offs := c17Offsets()
-	c.Space("cover", "NSEC3 records built by construction: owner hash = H(name)+a, next hash = H(name)+b (mod 2^160) for a, b ∈ {−3·2^151, −2^150, −2, −1, 0, +1, +2, +2^150, +3·2^151} (all 81 pairs: normal, wrapping, empty, adjacent intervals × hash below / = owner / owner+1 / inside / next−1 / = next / above) × zones {example., sub.example., .} × names {in zone, wildcard, apex, parent, other TLD, string-suffix sibling, root, a label ending in an escaped dot right before the zone's labels (outside the zone), the same with an escaped backslash (inside)} × (salt, iterations) × name spelling {lower, upper} × owner label {upper, lower} × NextDomain {upper, lower}; expected Match/Cover from 160-bit integer comparison and label-wise zone membership; non-trivial: name inside the record's zone", true,
+	c.Space("cover", "NSEC3 records built by construction: owner hash = H(name)+a, next hash = H(name)+b (mod 2^160) for a, b ∈ {−3·2^151, −2^150, −2, −1, 0, +1, +2, +2^150, +3·2^151} (all 81 pairs: normal, wrapping, empty, adjacent intervals × hash below / = owner / owner+1 / inside / next−1 / = next / above) × zones {example., sub.example., ., a zone with a raw non-UTF-8 octet, a zone with raw UTF-8 à} × names {in zone, wildcard, apex, parent, other TLD, string-suffix sibling, root, a label ending in an escaped dot right before the zone's labels (outside the zone), the same with an escaped backslash (inside)} × (salt, iterations) × name spelling {lower, upper} × owner label {upper, lower} × NextDomain {upper, lower}; expected Match/Cover from 160-bit integer comparison and label-wise zone membership; non-trivial: name inside the record's zone", true,
 		func(emit func(func(*fw.R))) {
 			for _, z := range zones {
 				for _, lower := range z.names {
@@ -683,7 +688,7 @@ func c17PublicKeyMatches(r *fw.R, keyPrefix, what string, k *dns.DNSKEY, priv cr
 }
 
 func c17FixedKeySpace(c *fw.Ctx) {
-	c.Space("fixedkeys", "the 13 fixed keys of /verif/keys (written by an independent generator; RSA 1024/2048 × SHA-1/-256/-512, P-256, P-384, Ed25519, incl. ECDSA keys whose private scalar / public X has a leading zero octet): NewPrivateKey(file) = reference reading; PrivateKeyString → strict reference reader and → NewPrivateKey give the same key; signatures by {file key, re-read key, reference key} verify under library and reference; non-trivial: every case (2048-bit RSA keys are included in both tiers: 13 cases)", true,
+	c.Space("fixedkeys", "the fixed keys of /verif/keys (written by an independent generator; RSA 1024/2048 × SHA-1/-256/-512 and one of 4096 bits, P-256, P-384, Ed25519, incl. ECDSA keys whose private scalar / public X has a leading zero octet): NewPrivateKey(file) = reference reading; PrivateKeyString → strict reference reader and → NewPrivateKey give the same key; signatures by {file key, re-read key, reference key} verify under library and reference; non-trivial: every case (the large RSA keys are included in both tiers)", true,
 		func(emit func(func(*fw.R))) {
 			for i := range c10KeyNames {
 				i := i
